@@ -222,6 +222,10 @@ func (tm *TypeMap) ZeroOf(s *Sort) *Term {
 		z = tm.c.Int(0)
 	case KUnint:
 		z = tm.c.Const("zero_"+s.Name, s)
+		if s.Name == "Float" {
+			// the zero value of a floating-point variable is the value of the literal 0 (see floatLit)
+			z = tm.c.Const("floatlit_0", s)
+		}
 	case KArray:
 		z = tm.c.ConstArray(s, tm.ZeroOf(s.Elem))
 	case KData:
